@@ -159,7 +159,8 @@ PosOf(ws, u) == CHOOSE i \in DOMAIN ws : ws[i] = u
 WSExactlyPending(e) ==
   /\ \A u \in Tasks : InWS(e.tasks[u]) <=> u \in Range(e.ws)
   /\ \A i, j \in DOMAIN e.ws : (i # j /\ e.ws[i] # NoVal) => e.ws[i] # e.ws[j]
-WSNoTrailingGap(e) == e.ws = <<>> \/ e.ws[Len(e.ws)] # NoVal
+\* (IF, not \/: inside an action TLC evaluates both disjuncts)
+WSNoTrailingGap(e) == IF Len(e.ws) = 0 THEN TRUE ELSE e.ws[Len(e.ws)] # NoVal
 WSStable(d, e) ==      \* without renumbering
   LET stay == {u \in Range(d.ws) \ {NoVal} : u \in Range(e.ws)}
       maxStay == IF stay = {} THEN 0
